@@ -137,7 +137,7 @@ def rule_a1(repo, res):
         for (c, m, n) in permitted:
             res.oblige("A1", f"{c}.{m} `{norm(n)}`: in-place GROUP->OBJECT replacement changes that one item only", ok=not drops_later)
             if drops_later:
-                res.add(Finding("A1", f"{c}.{m}", norm(n),
+                res.add(Finding("A1", f"{c}.{m}", "in-place GROUP->OBJECT conversion through __setitem__",
                                 f"the documented in-place GROUP->OBJECT conversion `{norm(n)}` goes through "
                                 "OrderedMultiDict.__setitem__, whose effect is 'replace the first item named k and delete "
                                 "every later item named k': when the caller's module holds several items with that name "
